@@ -285,8 +285,10 @@ func (d *Distributor) addSomeChain(ctx context.Context, rawChain [][]byte, loadP
 			return loglist3.LogList{}, nil, fmt.Errorf("distributor unable to process cert-chain: %w", err)
 		}
 
-		// Chain might be rooted to the Log which has no root-info yet.
-		return d.usableLl.Compatible(parsedChain[0], nil, d.logRoots), parsedChain, nil
+		// Chain might be rooted to the Log which has no root-info yet. Logs
+		// whose roots are known do not accept it.
+		temporal := d.usableLl.TemporallyCompatible(parsedChain[0])
+		return temporal.RootCompatible(nil, d.logRoots), parsedChain, nil
 	}
 	compatibleLogs, parsedChain, err := compatibleLogsAndChain()
 	if err != nil {
